@@ -319,6 +319,10 @@ func Discharge(pre *Pre, fgs []*FuncGen, filter func(*Obligation) bool, timeoutM
 			}
 			script := fg.Script(blk) + oblScript(o, true)
 			script = pre.For(script) + script
+			if d := os.Getenv("GOVC_KEEP"); d != "" {
+				os.MkdirAll(d, 0o755)
+				os.WriteFile(filepath.Join(d, strings.NewReplacer("/", "_", "#", "_", "@", "_").Replace(o.Name)+".smt2"), []byte(script), 0o644)
+			}
 			r := raceSolvers(script, o, timeoutMs*3, results[o], confirm)
 			mu.Lock()
 			results[o] = r
